@@ -339,6 +339,37 @@ func ruleC20(c *Check, p *Prog) {
 	checkWorkersAt(c, p, "R-DISPATCH", "rdgen.main/workers", S, goEv)
 	// cross-tool agreement: the detector counts a file named random<k>.bin in the output directory as a sample
 	checkDetectorAccepts(c, p)
+	// the -o value is used as given: the only rewriting allowed is filepath.Abs / filepath.Clean of itself
+	var rprobs []string
+	nst := 0
+	sum.Top.Events(func(e *Event, _ []*LoopS) {
+		if e.Kind != "store" || e.Root != gOut {
+			return
+		}
+		nst++
+		v := e.Val
+		okv := false
+		if v.Op == "extract0" && v.Args[0].K == KSym && v.Args[0].Sym.Ev != nil {
+			ce := v.Args[0].Sym.Ev
+			if ce.Kind == "call" && ce.Callee == "path/filepath.Abs" && len(ce.Args) == 1 && ce.Args[0] == ldOut {
+				okv = true
+			}
+		}
+		if v.Op == "call:path/filepath.Clean" && v.Args[0] == ldOut {
+			okv = true
+		}
+		if !okv {
+			rprobs = append(rprobs, fmt.Sprintf("output is rewritten to %v at %s", trunc(v.String(), 160), p.Pos(e.Pos)))
+		}
+	})
+	w.Top.Events(func(e *Event, _ []*LoopS) {
+		if e.Kind == "store" && e.Root == gOut {
+			rprobs = append(rprobs, "a worker writes the output variable at "+p.Pos(e.Pos))
+		}
+	})
+	c.Expect(len(rprobs) == 0, "R-OUT-DEP", "rdgen.main/resolve", where,
+		fmt.Sprintf("the -o value is only normalised by filepath.Abs/Clean of itself (%d assignment(s)): relative and absolute paths both denote the requested directory", nst),
+		strings.Join(rprobs, "; "))
 	// R-DEFAULT-DOC
 	checkGenFlags(c, p, x)
 }
